@@ -73,6 +73,10 @@ pub struct Lifetime {
     /// next owns it)
     #[serde(default)]
     pub squat: bool,
+    /// k > 0: the k-th `munmap` the injector makes while it goes out of scope fails (the platform
+    /// refuses to release that trampoline): every function must be restored all the same
+    #[serde(default)]
+    pub munmap_fault: u8,
 }
 
 #[derive(Serialize, Deserialize, Clone, Debug, Hash, PartialEq, Eq)]
@@ -161,6 +165,8 @@ pub struct LifeObs {
     #[serde(default)]
     pub new_log: Vec<LogEv>,
     pub exit: String,
+    #[serde(default)]
+    pub munmap_fault_hit: bool,
     pub drop_panicked: Option<String>,
     pub drop_log: Vec<LogEv>,
     /// (target index, bytes now, value if it was safe to call)
@@ -577,6 +583,7 @@ fn execute_inner(c: &HistCase, opts: &Opts) -> HistObs {
             // ---- exit
             crate::worker::phase("drop");
             let mark = ip::log_len();
+            ip::MUNMAP_FAIL_IN.store(life.munmap_fault as i64, SeqCst);
             match life.exit {
                 Exit::Normal => {
                     lo.exit = "normal".into();
@@ -606,6 +613,15 @@ fn execute_inner(c: &HistCase, opts: &Opts) -> HistObs {
                 if !kept.iter().any(|g| a >= (g.0 & !0xFFF) && a < (g.0 & !0xFFF) + 4096) {
                     lo.exec_removed.push((a, l));
                 }
+            }
+            ip::MUNMAP_FAIL_IN.store(0, SeqCst);
+            let failed: Vec<(u64, u64)> = ip::FAILED_UNMAPS.lock().map(|mut v| std::mem::take(&mut *v)).unwrap_or_default();
+            lo.munmap_fault_hit = !failed.is_empty();
+            for (a, l) in &failed {
+                // (what the library could not release the harness releases, so that later
+                // lifetimes see the address space they expect)
+                unsafe { ip::sys_munmap(*a as usize, (*l as usize).max(1)) };
+                kept.retain(|g| g.0 != *a);
             }
             let evs: Vec<ip::Ev> = ip::log_snapshot().into_iter().skip(mark).collect();
             for e in &evs {
@@ -725,7 +741,7 @@ pub fn strategy_all(max_lifetimes: usize, max_steps: usize, synth_bias_last_slot
         4 => prop::collection::vec(step.clone(), 0..=max_steps).boxed(),
         1 => (prop::collection::vec(step.clone(), 0..=max_steps / 2), refake, prop::collection::vec(step, 0..=max_steps / 3)).prop_map(|(mut a, b, c)| { a.extend(b); a.extend(c); a }).boxed(),
     ];
-    let life = (steps, prop_oneof![3 => Just(Exit::Normal), 1 => Just(Exit::Unwind)], rw, prop::bool::weighted(deny_wx), prop::bool::weighted(squat)).prop_map(|(steps, exit, rewrite, deny_wx, squat)| Lifetime { steps, exit, rewrite, deny_wx, squat });
+    let life = (steps, prop_oneof![3 => Just(Exit::Normal), 1 => Just(Exit::Unwind)], rw, prop::bool::weighted(deny_wx), prop::bool::weighted(squat)).prop_map(|(steps, exit, rewrite, deny_wx, squat)| Lifetime { steps, exit, rewrite, deny_wx, squat, munmap_fault: 0 });
     (synth, prop::collection::vec(life, 1..=max_lifetimes), any::<u8>()).prop_map(|(synth, lifetimes, focus)| {
         // concentrate the history on a few targets: indices are folded onto a window of 4
         let lifetimes = lifetimes
@@ -745,6 +761,7 @@ pub fn strategy_all(max_lifetimes: usize, max_steps: usize, synth_bias_last_slot
                 rewrite: l.rewrite,
                 deny_wx: l.deny_wx,
                 squat: l.squat,
+                munmap_fault: 0,
             })
             .collect();
         HistCase { synth, lifetimes, repeat: 1, in_teardown: focus % 11 == 3 }
